@@ -880,6 +880,113 @@ PROPS["C19"] = {
 }
 
 
+# ------------------------------------------------------------------------------------------------ C02 / C17 message trees
+def msgtree_paths(body):
+    """yield (path, leaf) for every leaf of the tree syntax of the msgtree harness: path = list of enclosing router kinds"""
+    out, stack, cur = [], [], ""
+    def flush():
+        nonlocal cur
+        if cur:
+            out.append((list(stack), cur))
+        cur = ""
+    i = 0
+    while i < len(body):
+        c = body[i]
+        if c == "[":
+            stack.append(cur.split(":")[0]); cur = ""
+        elif c == "]":
+            flush(); stack.pop()
+        elif c in ";,":
+            flush()
+        else:
+            cur += c
+        i += 1
+    flush()
+    return out
+
+
+def oracle_msgtree(run, ops, impl, pid):
+    out = []
+    vals = {}
+    for i, (op, ob) in enumerate(zip(ops, impl)):
+        a = op.split()
+        if a[1] == "reset":
+            vals = {}
+            for it in plist(a[2][4:]):
+                o, r = it.split(":"); vals[o] = int(r)
+            continue
+        if ob.startswith("panic"):
+            out.append(V(pid + ":panic", {"line": i + 1, "op": op}))
+            continue
+        if a[1] != "tx" or not ob.startswith("ok"):
+            continue
+        ext, sig, body = a[2], a[3], a[5]
+        f = ob.split()
+        eth = int(sec(f, "eth"))
+        leaves = msgtree_paths(body)
+        if pid == "C02":
+            if ext == "0" and eth != 0:
+                where = sorted({">".join(p) or "top" for p, l in leaves if l == "eth"})
+                out.append(V("C02:ethereum-tx-executed-outside-evm-ante:via=%s" % "+".join(where), {"line": i + 1, "op": op, "obs": ob}))
+            if ext == "1" and (any(l != "eth" or p for p, l in leaves) or eth != len(leaves)):
+                out.append(V("C02:evm-extension-tx-accepted-with-foreign-messages", {"line": i + 1, "op": op, "obs": ob}))
+            if ext == "0" and sig == "0":
+                out.append(V("C02:cosmos-tx-accepted-without-a-valid-cosmos-signature", {"line": i + 1, "op": op, "obs": ob}))
+        else:
+            new = {}
+            for it in plist(sec(f, "VAL")):
+                o, r = it.split(":"); new[o] = int(r)
+            for o, r in new.items():
+                if r > 25 and vals.get(o, 0) <= 25:
+                    paths = sorted({">".join(p) or "top" for p, l in leaves
+                                    if l.startswith("comm:%s:" % o) and int(l.split(":")[2]) > 25})
+                    via = "wasm" if any("wasm" in x for x in paths) else "+".join(paths)
+                    out.append(V("C17:commission-above-cap:via=%s" % via, {"line": i + 1, "op": op, "obs": ob, "operator": o, "rate": r}))
+            vals = new
+    return out
+
+
+def oracle_c02(run, ops, impl):
+    return oracle_msgtree(run, ops, impl, "C02")
+
+
+def oracle_c17(run, ops, impl):
+    return oracle_msgtree(run, ops, impl, "C17")
+
+
+MSGTREE_RULE = ("each case is one block of DeliverTx calls on the real app (full ante + message routing): message trees of depth <= 4 built "
+                "from MsgEthereumTx (signed with an Ethereum key), MsgCreateValidator/MsgEditValidator with commission rates on both sides "
+                "of the cap, bank sends, authz MsgGrant (generic, for every kind incl. MsgEthereumTx and MsgExec) and MsgExec, gov "
+                "MsgSubmitProposal, and MsgExecuteContract on a reflect contract that re-dispatches embedded messages (Stargate); half of "
+                "the trees come from aimed templates (self-exec, nested exec, grant-then-exec, wasm-wrapped, proposal-wrapped, the same body "
+                "with the EVM extension option, Cosmos tx signed by an eth_secp256k1 key); observations: accepted/failed, number of "
+                "EventEthereumTx, commission of the tracked validators; the model is outcome-conditioned: it must predict every failure its "
+                "rules imply and the exact effects of every accepted tx")
+
+PROPS["C02"] = {
+    "modules": ["NibiruProofs.C02"],
+    "runs": [{"model": "msgtree", "n_quick": 120, "n_thorough": 1500, "nontrivial": r"eth"}],
+    "oracle": oracle_c02,
+    "rule": MSGTREE_RULE + "; non-trivial = the tx contains a MsgEthereumTx somewhere",
+    "assumptions": ["an address recovered from an Ethereum signature cannot sign a Cosmos tx (eth_secp256k1 keys are refused by the SDK "
+                    "signature decorators: exercised by the generator), is not a contract and not the gov account (hypothesis WF/CosmosSigned)",
+                    "gov proposal content executes only after a vote, with the gov account as signer; the EthereumTx handler recovers "
+                    "its sender from the signature, so it could never be the gov account",
+                    "what runs behind the EVM ante (fees, nonce, signature) is decided by C05/C07"],
+}
+
+PROPS["C17"] = {
+    "modules": ["NibiruProofs.C17"],
+    "runs": [{"model": "msgtree", "n_quick": 120, "n_thorough": 1500, "nontrivial": r"comm:\d+:(2[6-9]|[3-9]\d|100)"}],
+    "oracle": oracle_c17,
+    "rule": MSGTREE_RULE + "; non-trivial = the tx contains a staking message with a commission above 25%",
+    "assumptions": ["the cap theorem covers trees without wasm-dispatched staking messages; the wasm path is a proved counterexample "
+                    "(C17_counterexample_wasm_dispatch) and a known finding",
+                    "MaxRate / MaxChangeRate limits of x/staking are outside the model (outcome-conditioned: the model takes the real outcome "
+                    "when no modelled rule forces a failure)"],
+}
+
+
 # ------------------------------------------------------------------------------------------------ C05 / C07 evm transactions
 E12 = 10 ** 12
 
